@@ -14,6 +14,7 @@ package registry
 //@ func (*registry.Registry).Register {C04,C20}
 //@   acquires {C20} Registry.registryLk
 //@   modifies r.entries
+//@   guarantee [registers-unless-present] {C04} !old(has(self.entries, identifier)) ==> has(self.entries, identifier) && self.entries[identifier] == processor
 //@   guarantee [registers-only-this] forall k datatransfer.TypeIdentifier :: has(self.entries, k) && !old(has(self.entries, k)) ==> k == identifier && self.entries[k] == processor
 //@   ensures [no-effects] untouched
 
